@@ -316,6 +316,7 @@ pub fn run(ctx: &mut RunCtx) {
             obs.class(&format!("stmt:{k}"));
             obs.class_if(changed, "stmt-changed-graph");
             obs.class_if(stats.merge_matched, "merge:matched");
+            obs.class_if(stats.replaced_own_writes, "set-replace-removes-own-write");
             obs.class_if(stats.merge_created, "merge:created");
             obs.class_if(stats.rows_in_updates == 0, "stmt:no-rows");
         }
